@@ -108,6 +108,26 @@ pub fn c06(tier: &str) -> i32 {
         ];
         searches.push(mk("three-table joins: a(k, v) with duplicate k and descending v, b(k, w) with a NULL key, c(k, v, z)", prefix, alpha, if quick { 3 } else { 5 }, if quick { 4_000 } else { 400_000 }));
     }
+    {
+        let m = TableDef::simple("m", &[("a", ColTy::Int), ("b", ColTy::Int), ("v", ColTy::Int)]).with_unique(&["a", "b"]);
+        let ins3 = |rows: &[(i128, i128, i128)]| Stmt::Insert { table: "m".into(), rows: rows.iter().map(|(x, y, z)| vec![i(*x), i(*y), i(*z)]).collect() };
+        let prefix = vec![Op::Auto(Stmt::CreateTable(m)), Op::Auto(ins3(&[(0, 9, 1), (2, 1, 2)]))];
+        let alpha = vec![
+            Op::Auto(ins3(&[(1, 0, 3)])),
+            Op::Auto(ins3(&[(2, 5, 4)])),
+            Op::Auto(ins3(&[(0, 3, 5)])),
+            Op::Auto(ins3(&[(3, 0, 6), (1, 9, 7)])),
+            Op::Auto(Stmt::Delete { table: "m".into(), pred: Some(("b".into(), i(9))) }),
+            Op::Auto(Stmt::Delete { table: "m".into(), pred: Some(("a".into(), i(2))) }),
+            Op::Begin(1),
+            Op::In(1, ins3(&[(1, 1, 8)])),
+            Op::Rollback(1),
+            Op::Commit(1),
+            Op::Vacuum,
+            Op::Analyze,
+        ];
+        searches.push(mk("composite unique index m(a, b): bounds on the leading column, on the non-leading column, and on both", prefix, alpha, if quick { 3 } else { 5 }, if quick { 3_000 } else { 400_000 }));
+    }
     run_searches(
         "C06",
         tier,
